@@ -96,7 +96,7 @@ def judge(r, what, allow_fuel=True):
 @st.composite
 def stdlib_case(draw):
     return {"f": draw(st.integers(0, 10_000)), "args": draw(st.lists(st.integers(0, len(POOL) - 1), min_size=4, max_size=4)),
-            "named": draw(st.integers(0, 9)) == 0, "cli": draw(st.integers(0, 49)) == 0}
+            "named": draw(st.integers(0, 9)) == 0, "cli": draw(st.integers(0, 49)) == 0, "typed": draw(st.integers(0, 3)) != 0}
 
 
 def call_src(name, arity, args, named=False):
@@ -110,6 +110,59 @@ def call_src(name, arity, args, named=False):
     return f"std.{name}(" + ", ".join(srcs) + ")"
 
 
+_POOL_TYPES = None
+_SIGS = {}
+TYPE_NAMES = {"Null": "null", "Bool": "boolean", "Number": "number", "String": "string", "Array": "array", "Object": "object", "Function": "function"}
+
+
+def pool_types():
+    """Type of every pool entry, computed by the implementation (std.type)."""
+    global _POOL_TYPES
+    if _POOL_TYPES is None:
+        res = util.eval_exprs([f"std.type({p})" for p in POOL], want=["typed"])
+        _POOL_TYPES = [util.typed(r) if util.is_ok(r) else "error" for r in res]
+    return _POOL_TYPES
+
+
+def signature(name, arity):
+    """Accepted types per parameter, learned from the implementation's own argument-type errors
+    (None where nothing can be learned, e.g. for functions written in Jsonnet)."""
+    if name in _SIGS:
+        return _SIGS[name]
+    sig = [None] * arity
+    by_type = {}
+    for i, t in enumerate(pool_types()):
+        by_type.setdefault(t, i)
+    args = ["null"] * arity
+    for _ in range(arity + 1):
+        r = util.eval_one(f"std.{name}(" + ", ".join(args) + ")", want=["typed"], fuel=200_000)
+        e = r.get("err") or {}
+        if e.get("variant") != "InvalidStdFuncArgType" or e["detail"].get("func") != name:
+            break
+        k = e["detail"]["arg"]
+        types = [TYPE_NAMES[t] for t in e["detail"]["expected"]]
+        if k >= arity or sig[k] is not None:
+            break
+        sig[k] = types
+        args[k] = POOL[by_type.get(types[0], 0)]
+    _SIGS[name] = sig
+    return sig
+
+
+def typed_args(name, arity, raw):
+    """Maps raw choices to pool indices that satisfy the learned signature."""
+    sig = signature(name, arity)
+    types = pool_types()
+    out = []
+    for i in range(arity):
+        if sig[i] is None:
+            out.append(raw[i] % len(POOL))
+        else:
+            cands = [j for j, t in enumerate(types) if t in sig[i]]
+            out.append(cands[raw[i] % len(cands)] if cands else raw[i] % len(POOL))
+    return out
+
+
 def run_stdlib_call(src, cli):
     r = util.eval_one(src, want=["multi"], fuel=3_000_000)
     out = judge(r, src)
@@ -121,12 +174,15 @@ def run_stdlib_call(src, cli):
 def check_stdlib(case):
     fl = util.std_functions()
     name, arity = fl[case["f"] % len(fl)]
-    src = call_src(name, arity, case["args"], case["named"])
+    args = case["args"]
+    if case.get("typed") and arity <= 4:
+        args = typed_args(name, arity, args)
+    src = call_src(name, arity, args, case["named"])
     if src is None:
         return {"labels": ["skipped-alloc-cap"]}
     out = run_stdlib_call(src, case["cli"])
     reached = out == "ok" or True
-    return {"nontrivial": arity >= 1 and reached, "labels": [out], "sample": src[:200]}
+    return {"nontrivial": arity >= 1 and reached, "labels": [out, "typed" if case.get("typed") else "untyped"], "sample": src[:200]}
 
 
 def enum_stdlib(tier, worker, nworkers):
